@@ -31,10 +31,10 @@ def subjects():
     for T in m.BUILTINS:
         out.append((('implements', 'builtin:' + T.__name__), implementedBy(T)))
         out.append((('object', 'builtin:' + T.__name__, 'plain'), T()))
-    for nm_ in ('EARLY_A', 'EARLY_A2'):
+    for cn, nm_ in m.EARLY:
         o = getattr(m, nm_)
-        out.append((('object', 'A', nm_), o))
-        out.append((('provides', 'A', nm_), o.__dict__.get('__provides__')))
+        out.append((('object', cn, nm_), o))
+        out.append((('provides', cn, nm_), o.__dict__.get('__provides__')))
     for K in m.CLASSES:
         out.append((('implements', K.__name__), implementedBy(K)))
         out.append((('classprovides', K.__name__), getattr(K, '__provides__', None)))
